@@ -93,15 +93,23 @@ fn run_on<T: DrawTarget<Color = Rgb888, Error = FaultErr>>(
     }
     rec.ev("stack", json!({"pbox": desc["pbox"], "native": desc["native"], "layers": desc["layers"], "boxes": b.boxes, "cmaps": b.cmaps}));
     let mut seen = 0usize;
+    let huge = desc["huge"].as_i64() == Some(1);
     for op in desc["ops"].as_array().unwrap() {
         let mut v = IssueOp { op, actual: json!({}) };
-        with_stack(parent, layers, &mut v);
+        // a panic inside one operation is recorded for that operation
+        let r = catch(|| with_stack(parent, layers, &mut v));
         let (calls, n) = calls_since(parent, seen);
         seen = n;
         if !calls.is_empty() {
             rec.nontrivial();
         }
-        rec.ev("op", json!({"op": v.actual, "parent": calls}));
+        match r {
+            Ok(()) => rec.ev(if huge { "hugeop" } else { "op" }, json!({"op": v.actual, "parent": calls})),
+            Err(p) => {
+                rec.note("panicked_operations");
+                rec.ev("oppanic", json!({"op": op, "msg": p.msg, "loc": p.loc}));
+            }
+        }
     }
 }
 
@@ -114,6 +122,9 @@ fn run_case(rec: &mut Rec, desc: &Value) {
             run_on(rec, desc, &mut p, &mut |p: &LogNative<Rgb888>, from| (p.calls[from..].iter().map(|c| c.to_json()).collect(), p.calls.len()));
         } else {
             let mut p = LogDefault::<Rgb888>::new(pbox);
+            if let Some(c) = desc["cap"].as_u64() {
+                p.cap = c as usize;
+            }
             run_on(rec, desc, &mut p, &mut |p: &LogDefault<Rgb888>, from| (p.calls[from..].iter().map(|c| c.to_json()).collect(), p.calls.len()));
         }
     });
@@ -246,6 +257,16 @@ fn main() {
                 };
                 run_case(&mut rec, &json!({"pbox": [0, 0, 12, 8], "native": ((k / 4) % 2 == 0) as i32, "layers": layers, "ops": chunk}));
             }
+        }
+    }
+    // huge areas (>= 2^32 points) through the default fill methods: only a prefix of the pixel stream is pulled
+    for (k, area) in [[-5, -3, 65536, 65536], [2, 1, 70000, 61357], [0, 0, 4294967, 1001], [-1, -1, 65536, 65537]].iter().enumerate() {
+        for layers in [json!([]), json!([{"k":"tr","o":[3, -2]}]), json!([{"k":"cc"}, {"k":"tr","o":[-1, 1]}]), json!([{"k":"tr","o":[1, 1]}, {"k":"cc"}, {"k":"cc"}])] {
+            let ops = json!([
+                {"m":"fill_solid","area":area,"color":77 + k,"colors":[],"px":[]},
+                {"m":"fill_contiguous","area":area,"color":-1,"colors":(0..900).map(|j| (j * 3 + 1) % 251).collect::<Vec<u32>>(),"px":[]},
+            ]);
+            run_case(&mut rec, &json!({"pbox": [0, 0, 9, 7], "native": 0, "layers": layers, "ops": ops, "huge": 1, "cap": 700}));
         }
     }
     // seeded stacks of depth <= 3
